@@ -154,6 +154,10 @@ func (p *exeParser) readField() (f *Field, err error) {
 		err = parseError(p.line, p.col, "a field name can not be blank")
 	}
 	f = &Field{SelBase: SelBase{line: p.line, col: p.col - len(token)}}
+	if 0 < len(token) {
+		f.line = p.tokLine
+		f.col = p.tokCol
+	}
 	if err == nil {
 		b, err = p.skipSpace()
 	}
